@@ -721,6 +721,9 @@ func intValueFromInt(msg protoreflect.Message, val intable) (fhir.Base, error) {
 			}
 			intValue = protoreflect.ValueOfUint32(uint32(val.GetValue()))
 		default:
+			// Not an integer-valued element: nothing to normalize, the caller
+			// reports the type mismatch.
+			return nil, nil
 		}
 		container.Set(valueField, intValue)
 		return container.Interface(), nil
